@@ -393,3 +393,24 @@ func replayWorld(t *testing.T, prop string, id int, in WorldIn, out *Out) {
 		t.Fatal(err)
 	}
 }
+
+// PopLastEntry undoes the most recent Push (log entry and reference), restoring
+// the reference to prevTarget (nil: delete it).
+func (b *WorldBuilder) PopLastEntry(ref string, prevTarget *int) {
+	n := len(b.W.Log)
+	if n == 0 {
+		b.t.Fatal("PopLastEntry on empty log")
+	}
+	if n == 1 {
+		b.fatal(b.Repo.DeleteReference(rsl.Ref))
+	} else {
+		b.fatal(b.Repo.SetReference(rsl.Ref, b.EntryIDs[n-2]))
+	}
+	if prevTarget == nil {
+		b.fatal(b.Repo.DeleteReference(ref))
+	} else {
+		b.fatal(b.Repo.SetReference(ref, b.commitIDs[*prevTarget]))
+	}
+	b.W.Log = b.W.Log[:n-1]
+	b.EntryIDs = b.EntryIDs[:n-1]
+}
